@@ -282,6 +282,7 @@ def register(spec):
               'result == (entity in self._entities and nonempty(self._entities[entity]) '
               'and not (entity in self._dead_entities))'})
     C(W + 'get_components', params=dict(P, entity=Ent), props=['C01'], requires=wfW,
+      returns=TList(Comp),
       ensures={
           'only-attached': (
               'all(implies(0 <= i and i < len(result), entity in self._entities and '
